@@ -231,17 +231,33 @@ def answer (line : String) : String :=
     -- full model of `batch_verify` / `verify` on explicit members
     match parseFr tau, parseFr r, np.toNat?, npr.toNat?, ms.mapM parseMember with
     | some tau, some r, some np, some npr, some ms =>
-      s!"batch={fmtRes (batchVerify tau np npr ms r)} verdict={fmtRes (batchVerdict tau np npr ms)} each={join (ms.map (fun m => fmtRes (verifyOne tau m)))}"
+      s!"batch={fmtRes (batchVerify tau np npr ms r)} each={join (ms.map (fun m => fmtRes (verifyOne tau m)))}"
     | _, _, _, _, _ => "bad-op"
   | "rbatch" :: np :: npr :: cs =>
     match np.toNat?, npr.toNat?, cs.mapM classMember with
     | some np, some npr, some ms =>
       s!"batch={fmtRes (batchVerdict (fr 1) np npr ms)} each={join (ms.map (fun m => fmtRes (verifyOne (fr 1) m)))}"
     | _, _, _ => "bad-op"
-  | "rsched" :: ss =>
-    match ss.mapM parseFr with
-    | some ss => " ".intercalate ((rSchedule ss).map fmtTEvent)
-    | none => "bad-op"
+  | "rsched" :: np :: npr :: cs =>
+    -- `class[@summary]` per member; the summary is carried in the (otherwise unused) base of the
+    -- member's guard
+    let parseOne (c : String) : Option (Member Fr Fr) :=
+      match c.splitOn "@" with
+      | [cl] => classMember cl
+      | [cl, s] => do
+        let m ← classMember cl
+        let s ← parseFr s
+        pure { m with prepared := m.prepared.map (fun d => { d with left := [⟨fr 1, s, .noLabel⟩] }) }
+      | _ => none
+    let summaryOf (m : Member Fr Fr) : Fr :=
+      match m.prepared with
+      | .ok d => (d.left.head?.map (·.base)).getD (fr 0)
+      | .error _ => fr 0
+    match np.toNat?, npr.toNat?, cs.mapM parseOne with
+    | some np, some npr, some ms =>
+      let ev := rScheduleFull np npr ms summaryOf
+      if ev.isEmpty then "-" else " ".intercalate (ev.map fmtTEvent)
+    | _, _, _ => "bad-op"
   | ["fromdual", pfx, d, fb] =>
     match parseDual d, parseMap fb with
     | some d, some fb =>
@@ -277,6 +293,14 @@ def answer (line : String) : String :=
       | some a => fmtAcc false a
       | none => "panic"
     | _, _ => "bad-op"
+  | "accumulate-check" :: tau :: r :: fb :: accs =>
+    -- check of `accumulate(accs)` and of its collapse
+    match parseFr tau, parseFr r, parseMap fb, accs.mapM parseAcc with
+    | some tau, some r, some fb, some accs =>
+      match Accumulator.accumulate (fun _ => r) (fun _ => []) accs with
+      | some a => fmtOptBool (a.check tau fb) ++ " " ++ fmtOptBool (a.collapse.check tau fb)
+      | none => "panic"
+    | _, _, _, _ => "bad-op"
   | ["accpi", a, enc] =>
     -- `enc`: `base=f/f/…,…`
     match parseAcc a with
